@@ -964,7 +964,7 @@ def main(tier, seed):
     jobs = []
     if tier != 'quick':
         # 4-operation histories for a few first pairs (the full 4-operation space does not finish in an hour here)
-        for a, a2 in (('synth', 'group'), ('group', 'synth'), ('buffer', 'buffers'), ('bus', 'synth'), ('synth', 'synth'),
+        for a, a2 in (('synth', 'free'), ('group', 'synth'), ('buffer', 'buffers'), ('bus', 'synth'), ('synth', 'move'),
                       ('buffers', 'buffree'), ('group', 'group'), ('freeall', 'buffer')):
             jobs.append(dict(nops=4, first=[OPS.index(a), OPS.index(a2)], bind=0, deep=False))
     for b in (0, 1, 2):
